@@ -195,6 +195,45 @@ example : ∃ e, onRpcError Gen.defaultDCList 303 (phoneMigratePre ++ [57]) = .o
     e.code = 303 ∧ e.message = phoneMigrateX ∧ e.param = .int 9 :=
   migrate_unconfigured_is_error _ _ (by decide +kernel) (by decide +kernel)
 
+/-- "the address CONFIGURED for data centre X", for every history of configuration calls: after any sequence of
+`SetDCList` calls (any number, overlapping / disjoint / overriding / empty arguments) on a client whose table started
+as `init`, the table binds each data centre to what the LAST call that mentions it says, and every data centre no call
+mentions to what it was bound initially — the right-biased union of the initial table and all arguments. No call makes
+the client forget what an earlier call (or the default list) configured. -/
+theorem dclist_after_calls (init : DCList) (calls : List DCList) (k : Int) :
+    (dclistAfter init calls).lookup k = configuredAfter init calls k := by
+  unfold dclistAfter configuredAfter
+  induction calls generalizing init with
+  | nil => simp
+  | cons c rest ih =>
+    rw [List.foldl_cons, ih (setDCList init c)]
+    simp only [List.reverse_cons, List.findSome?_append, List.findSome?_cons, List.findSome?_nil, setDCList,
+      List.lookup_append]
+    cases rest.reverse.findSome? (fun c => List.lookup k c) <;> cases List.lookup k c <;> simp
+
+/-- … hence the decision for PHONE_MIGRATE_n after a history of calls: migrate to what the last call that binds `n`
+says (else the initial table), "not found" exactly when neither any call nor the initial table binds `n`. -/
+theorem migrate_after_calls (init : DCList) (calls : List DCList) (code : Int) {d : Bytes} {n : Int}
+    (hd : atoi d = some n) :
+    (∀ addr, configuredAfter init calls n = some addr →
+      ∃ e, onRpcError (dclistAfter init calls) code (phoneMigratePre ++ d) = .ok (e, .migrate n addr)) ∧
+    (configuredAfter init calls n = none →
+      ∃ e, onRpcError (dclistAfter init calls) code (phoneMigratePre ++ d) = .ok (e, .dcNotFound n)) := by
+  constructor
+  · intro addr h
+    obtain ⟨e, he, _⟩ := migrate_configured (dclistAfter init calls) code hd (by rw [dclist_after_calls]; exact h)
+    exact ⟨e, he⟩
+  · intro h
+    obtain ⟨e, he, _⟩ := migrate_unconfigured_is_error (dclistAfter init calls) code hd (by rw [dclist_after_calls]; exact h)
+    exact ⟨e, he⟩
+
+-- SetDCList({2: a, 7: b}); SetDCList({8: c}); SetDCList({2: d}): 7 is still b, 2 is d, 8 is c, 9 nobody's
+example : (dclistAfter [(1, [48])] [[(2, [97]), (7, [98])], [(8, [99])], [(2, [100])]]).lookup 7 = some [98] ∧
+    configuredAfter [(1, [48])] [[(2, [97]), (7, [98])], [(8, [99])], [(2, [100])]] 2 = some [100] ∧
+    configuredAfter [(1, [48])] [[(2, [97]), (7, [98])], [(8, [99])], [(2, [100])]] 8 = some [99] ∧
+    configuredAfter [(1, [48])] [[(2, [97]), (7, [98])], [(8, [99])], [(2, [100])]] 1 = some [48] ∧
+    configuredAfter [(1, [48])] [[(2, [97]), (7, [98])], [(8, [99])], [(2, [100])]] 9 = none := by decide
+
 /-- Clause "the one error handled instead of returned is PHONE_MIGRATE_X": every text that is not
 `PHONE_MIGRATE_` followed by a number is returned to the caller as the structured error — for any
 DC table; this includes PHONE_MIGRATE_ with an absent / non-numeric / out-of-range parameter and
